@@ -378,6 +378,10 @@ class CodeGenerator(NodeVisitor):
         # Tracks toplevel assignments
         self._assign_stack: list[set[str]] = []
 
+        # How many scoped eval context modifiers (autoescape blocks) are
+        # open around the node being compiled.
+        self._eval_ctx_depth = 0
+
         # Tracks parameter definition blocks
         self._param_def_block: list[set[str]] = []
 
@@ -2108,15 +2112,28 @@ class CodeGenerator(NodeVisitor):
         saved_ctx = frame.eval_ctx.save()
         self.writeline(f"{old_ctx_name} = context.eval_ctx.save()")
         # The context of an imported template lives as long as the
-        # cached module, restore it when the body raises too.
-        self.writeline("try:")
-        self.indent()
+        # cached module, restore it when the body raises too. Python
+        # limits how deep blocks can be nested in a function, absurdly
+        # deep levels are only restored by the levels around them.
+        guard = self._eval_ctx_depth < 8
+        self._eval_ctx_depth += 1
+
+        if guard:
+            self.writeline("try:")
+            self.indent()
+
         self.visit_EvalContextModifier(node, frame)
         for child in node.body:
             self.visit(child, frame)
-        self.outdent()
         frame.eval_ctx.revert(saved_ctx)
-        self.writeline("finally:")
-        self.indent()
+        self._eval_ctx_depth -= 1
+
+        if guard:
+            self.outdent()
+            self.writeline("finally:")
+            self.indent()
+
         self.writeline(f"context.eval_ctx.revert({old_ctx_name})")
-        self.outdent()
+
+        if guard:
+            self.outdent()
